@@ -16,7 +16,7 @@
 (***************************************************************************)
 EXTENDS Observers, TLC
 
-CONSTANTS Impl,       \* "ref" | "pinned" | "f16"
+CONSTANTS Impl,       \* "ref" | "pinned" | "f16" | "costkeys"
           Kind,       \* "pit" | "mps" | "sn"
           MaxBn,      \* saturation of the BatchNorm-update counter
           TrackHist,  \* BOOLEAN
@@ -25,10 +25,10 @@ CONSTANTS Impl,       \* "ref" | "pinned" | "f16"
 VARIABLES core, cs, par, init, hist
 vars == <<core, cs, par, init, hist>>
 
-NoCore  == [wt |-> FALSE, st |-> FALSE, theta |-> "-", bn |-> 0]
+NoCore  == [wt |-> FALSE, st |-> FALSE, theta |-> "-", bn |-> 0, dk |-> {}]
 HardSet == IF Kind = "pit" THEN {FALSE} ELSE BOOLEAN
 
-TypeOK == /\ core \in [wt : BOOLEAN, st : BOOLEAN, theta : {"-", "soft", "hard"}, bn : 0..MaxBn]
+TypeOK == /\ core \in [wt : BOOLEAN, st : BOOLEAN, theta : {"-", "soft", "hard"}, bn : 0..MaxBn, dk : SUBSET {"costkeys"}]
           /\ cs \in Specs
           /\ par \in [hard : BOOLEAN, hasbn : BOOLEAN, maxbn : {MaxBn}]
 
@@ -36,7 +36,7 @@ TypeOK == /\ core \in [wt : BOOLEAN, st : BOOLEAN, theta : {"-", "soft", "hard"}
 \* by "the usual forward pass" so that the stored coefficients are those of the current mode
 Init == \E train \in BOOLEAN, hard \in HardSet, c0 \in {"A", "D"} :
           /\ par = [hard |-> hard, hasbn |-> Kind # "mps", maxbn |-> MaxBn]
-          /\ core = [wt |-> train, st |-> train, theta |-> Sampled(Kind, hard, train), bn |-> 0]
+          /\ core = [wt |-> train, st |-> train, theta |-> Sampled(Kind, hard, train), bn |-> 0, dk |-> {}]
           /\ cs = c0
           /\ init = IF TrackHist THEN [core |-> core, cs |-> c0] ELSE [core |-> NoCore, cs |-> "A"]
           /\ hist = <<>>
@@ -70,6 +70,9 @@ Spec == Init /\ [][Next]_vars
 (***************************************************************************)
 \* the inner model is in the mode of the wrapper ("model.training is True but model.seed.training is False" is F16)
 ModesAgree == core.st = core.wt
+
+\* no observer call ever adds an attribute to a module of the model
+NoNewKeys == core.dk = {}
 
 \* [][Observer => UNCHANGED core]: the four observers change nothing
 ObserversNeutral ==
